@@ -36,6 +36,14 @@ def main():
     for nm, p, f, meta in enginegen.extra_pairs():
         pairs.append(("p.patch", p, "a.go", f)); names.append(nm); metas.append(meta)
     res = enginecorr.run(pairs)
+    # the patterns the engine is compared on are the ones gopatch parsed: how the text of a patch becomes its '-' and '+'
+    # versions (section.Split, parse.splitPatch) is tied to the front-end model on the same patches
+    import frontend
+    upatches = sorted(set(p[1] for p in pairs))
+    for pt, fe in zip(upatches, frontend.analyse(upatches)):
+        if fe["mismatches"]:
+            ck.mismatch("front-end model and gopatch disagree on a patch: %s" % "; ".join(fe["mismatches"][:3]), {"patch": pt.decode("utf-8", "replace")},
+                        "corr:section (Model/Section.v split / split_patch vs internal/parse/section, internal/parse.splitPatch)")
     for name, pair, o, meta in zip(names, pairs, res, metas):
         ck.count((pair[1], pair[3]), nontrivial=not o["skipped"])
         ck.tally("generator", name.split(":")[0].split("(")[0])
